@@ -74,7 +74,30 @@ void *file_memory_load(FILE *f, int64_t *sz)
 FILE *file_open(const char *t, const char *fmt, ...) { (void)t; (void)fmt; return &fake_files[2]; }
 void vlogger(enum log_level l, char *f, unsigned n, const char *fmt, ...) { (void)l; (void)f; (void)n; (void)fmt; }
 void mpi_blocking_data_send(const void *d, int s, nid_t dst) { (void)d; (void)s; (void)dst; }
-void *mpi_blocking_data_rcv(int *s, nid_t src) { (void)src; if(s) *s = 0; return NULL; }
+/* VERIF_STUB mpi_blocking_data_rcv: rank `src` sends its struct stats_global (announcing slave_threads threads), then its
+ * node array and one array per thread; the stub counts what the master asks for */
+static unsigned rcv_calls, slave_threads;
+static struct stats_global slave_hdr;
+void *mpi_blocking_data_rcv(int *s, nid_t src)
+{
+	(void)src;
+	void *b;
+	if(rcv_calls == 0) {
+		slave_hdr.threads_count = slave_threads;
+		b = malloc(sizeof(slave_hdr));
+		VASSUME(b != NULL);
+		memcpy(b, &slave_hdr, sizeof(slave_hdr));
+		if(s)
+			*s = (int)sizeof(slave_hdr);
+	} else {
+		b = malloc(8);
+		VASSUME(b != NULL);
+		if(s)
+			*s = 8;
+	}
+	rcv_calls++;
+	return b;
+}
 
 static void env_reset(void)
 {
@@ -191,4 +214,34 @@ void h_final_write(void)
 		if(i < n_chunks)
 			VASSERT(chunk_f[i] == out, "C20.final everything goes to the output file");
 	VCANARY("h_final_write reachable");
+}
+
+/* stats_files_receive: the master appends, for every other rank, that rank's header followed by exactly the
+ * (1 + t_cnt) size-prefixed arrays THAT rank announces - whatever the master's own thread count is */
+void h_files_receive(void)
+{
+	env_reset();
+	VIN(unsigned, master_threads);
+	VIN(unsigned, in_slave_threads);
+	VASSUME(master_threads >= 1 && master_threads <= 3 && in_slave_threads >= 1 && in_slave_threads <= 3);
+	global_config.n_threads = master_threads;
+	slave_threads = in_slave_threads;
+	rcv_calls = 0;
+	n_nodes = 2;
+	FILE *out = &fake_files[3];
+	stats_files_receive(out);
+	VASSERT(rcv_calls == 2 + in_slave_threads, "C20.receive the master collects exactly the header, the node array and one array per thread of the SENDING rank");
+	VASSERT(n_chunks == 1 + 2 * (1 + in_slave_threads), "C20.receive the rank's block is its header followed by (1 + t_cnt) size-prefixed arrays, as the layout documents");
+	VASSERT(chunk_sz[0] == sizeof(struct stats_global), "C20.receive the rank's header is copied verbatim");
+	uint64_t tc;
+	memcpy(&tc, chunk_data[0], 8);
+	VASSERT(tc == in_slave_threads, "C20.receive the header announces the sending rank's thread count");
+	for(unsigned k = 0; k < 4; k++)
+		if(k < 1 + in_slave_threads) {
+			int64_t sz;
+			memcpy(&sz, chunk_data[1 + 2 * k], 8);
+			VASSERT(chunk_sz[1 + 2 * k] == 8 && sz == 8 && chunk_sz[2 + 2 * k] == 8, "C20.receive every array is preceded by its size");
+		}
+	VCANARY("h_files_receive reachable");
+	VCOVER(master_threads != in_slave_threads, "h_files_receive covers ranks with different thread counts");
 }
